@@ -109,6 +109,39 @@ end
 /-- GetNewPLE on a document: the columns in emission order -/
 def flatten (ts : Bytes) (doc : Members) : List (Bytes × Atom) := flatMembers ts [] doc
 
+/-! ### the longest string value
+
+A string value is written as VALTYPE_ENC_SMALL_STRING, `uint16(len)`, bytes (parseSingleString), and the readers
+keep the END INDEX of such a record (3 + len) in a uint16 (GetCvalFromRec): 65532 bytes is the longest value that
+can be stored and read back.  As repaired (patch c16-4, `maxStringValueLen`) ParseRawJsonObject /
+parseNonJaegerRawJsonArray refuse a document with a longer string value (every string leaf is looked at, the one
+under the timestamp key too), the handler tells the sender; before, a value of 65533..65535 bytes was lost or killed
+the process at search time (ReadDictEnc, patch c16-5) and a longer one was stored with its length mod 65536
+(`storedLenOld`). -/
+
+def maxStringBytes : Nat := 65532
+
+def Atom.tooLong : Atom → Bool
+  | .str s => s.length > maxStringBytes
+  | _ => false
+
+mutual
+  def longJson : Json → Bool
+    | .leaf v => v.tooLong
+    | .arr xs => longElems xs
+    | .obj ms => longMembers ms
+  def longElems : Elems → Bool
+    | .nil => false
+    | .cons x xs => longJson x || longElems xs
+  /-- GetNewPLE refuses the document: some string leaf is longer than 65532 bytes -/
+  def longMembers : Members → Bool
+    | .nil => false
+    | .cons _ v ms => longJson v || longMembers ms
+end
+
+/-- BEFORE the repair: the number of bytes that came back for a string value of `n` bytes -/
+def storedLenOld (n : Nat) : Nat := n % 65536
+
 /-- the record that is read back: of several columns with one name the LAST one emitted -/
 def lookupLast (fs : List (Bytes × Atom)) (name : Bytes) : Option Atom :=
   (fs.reverse.find? (fun p => p.1 = name)).map (·.2)
@@ -463,12 +496,37 @@ def hecNumMode : NumMode := .direct
 /-- before the repair: float64 and back -/
 def hecNumModeOld : NumMode := .viaF64
 
+/-- what a protocol answers for the document it hands to GetNewPLE: refused, or the stored record -/
+def stored (m : NumMode) (doc : Members) : String :=
+  if longMembers doc then "rejected" else canonical m (flatten tsKey doc)
+
+/-- a string leaf of 60000 bytes or more: the ES bulk line reaches the handler's record size limit (63000 bytes of JSON
+text; the text is not modelled), `es=` is printed as `*` by both sides -/
+def esMaskBytes : Nat := 60000
+
+def Atom.huge : Atom → Bool
+  | .str s => s.length ≥ esMaskBytes
+  | _ => false
+
+mutual
+  def hugeJson : Json → Bool
+    | .leaf v => v.huge
+    | .arr xs => hugeElems xs
+    | .obj ms => hugeMembers ms
+  def hugeElems : Elems → Bool
+    | .nil => false
+    | .cons x xs => hugeJson x || hugeElems xs
+  def hugeMembers : Members → Bool
+    | .nil => false
+    | .cons _ v ms => hugeJson v || hugeMembers ms
+end
+
 def answer (c : Consts) (k : Case) : String :=
-  let es := canonical .direct (flatten tsKey (envEs k.tree))
-  let doc := canonical .direct (flatten tsKey (envEsDoc k.tree))
-  let hec := canonical hecNumMode (flatten tsKey (envHec c k.tree))
-  let loki := canonical hecNumMode (flatten tsKey (envLoki c k.msg k.tree))
-  let otlp := canonical .otlp (flatten tsKey (envOtlp c k.bodyTree k.ids k.msg k.tree))
+  let es := if hugeMembers k.tree then "*" else stored .direct (envEs k.tree)
+  let doc := stored .direct (envEsDoc k.tree)
+  let hec := stored hecNumMode (envHec c k.tree)
+  let loki := stored hecNumMode (envLoki c k.msg k.tree)
+  let otlp := stored .otlp (envOtlp c k.bodyTree k.ids k.msg k.tree)
   s!"es={es} | esdoc={doc} | hec={hec} | loki={loki} | otlp={otlp}"
 
 /-- BEFORE the repair c12-10 of `extractAnyValue` an event with a null anywhere (sent as the EMPTY AnyValue) was
